@@ -129,13 +129,21 @@ func (e *Env) Exec(spec *simrt.Spec) *Out { return e.ExecProcs(spec, "") }
 // only a run that overruns the wall clock three times in a row counts as a hang
 // (ordinary runs take milliseconds; a single expiry under load is not a verdict).
 func (e *Env) ExecProcs(spec *simrt.Spec, procs string) *Out {
-	o := Exec(e.Bins.Sim, spec, procs)
-	for i := 0; i < 2 && o.TimedOut; i++ {
-		e.Stats.Counters["watchdog_retries"]++
-		o = Exec(e.Bins.Sim, spec, procs)
-	}
+	o, retries := execRobust(e.Bins.Sim, spec, procs)
+	e.Stats.Counters["watchdog_retries"] += retries
 	e.Stats.note(spec, o)
 	return o
+}
+
+// execRobust: a watchdog timeout, or a death that left neither a result record nor a Go runtime message (killed
+// from outside), may be the machine's doing: only a death that repeats three times is the program's.
+func execRobust(bin string, spec *simrt.Spec, procs string) (*Out, int) {
+	o := Exec(bin, spec, procs)
+	n := 0
+	for ; n < 2 && (o.TimedOut || (!o.HasRes && o.Fatal() == "died")); n++ {
+		o = Exec(bin, spec, procs)
+	}
+	return o, n
 }
 
 type Stats struct {
@@ -525,7 +533,7 @@ func ReplayFile(path string, bins *Bins) (reproduced bool, identical bool, ds []
 		outs := make([]*Out, len(r.Case.Runs))
 		identical = true
 		for i := range r.Case.Runs {
-			outs[i] = Exec(bins.Sim, &r.Case.Runs[i].Spec, r.Case.Runs[i].Procs)
+			outs[i], _ = execRobust(bins.Sim, &r.Case.Runs[i].Spec, r.Case.Runs[i].Procs)
 			if i < len(r.Hashes) && outs[i].Hash(true) != r.Hashes[i] {
 				identical = false
 			}
@@ -552,7 +560,7 @@ func SelfTest(bins *Bins, specs []simrt.Spec, reps int) (int, int, []int) {
 	for i := range specs {
 		var h0, o0 string
 		for r := 0; r < reps; r++ {
-			o := Exec(bins.Sim, &specs[i], procs[r%len(procs)])
+			o, _ := execRobust(bins.Sim, &specs[i], procs[r%len(procs)])
 			runs++
 			h, oh := o.Hash(true), o.Hash(false)
 			if r == 0 {
@@ -595,7 +603,7 @@ func Fidelity(bins *Bins, w *World, args []string) string {
 		}
 	}
 	_ = os.MkdirAll(spec.Cwd, 0o755)
-	so := Exec(bins.Sim, &spec, "")
+	so, _ := execRobust(bins.Sim, &spec, "")
 	cmd := exec.Command(bins.Real, spec.Args...)
 	cmd.Dir = spec.Cwd
 	cmd.Stdin = bytes.NewReader(spec.Stdin)
